@@ -698,9 +698,12 @@ fn shake_1(expression: Expression) -> Expression {
                 } else {
                     #[cfg(feature = "verif")]
                     crate::verif::hit(crate::verif::Arm::OPT_SHAKE_AND_NESTED_MERGED);
+                    // NOTE: An `And` group marks this as merged blocks (each may be satisfied by a
+                    // different element of an array), a quantifier written on a key inside one
+                    // block is a group of `Or` and must hold within a single element.
                     shake_1(Expression::Match(
                         Match::All,
-                        Box::new(Expression::BooleanGroup(BoolSym::Or, expressions)),
+                        Box::new(Expression::BooleanGroup(BoolSym::And, expressions)),
                     ))
                 };
                 scratch.push(Expression::Nested(field, Box::new(shaken)));
